@@ -1166,8 +1166,15 @@ def _check(run, replay):
         if c.get("history_only"):
             continue
         if "_orig" in c:
-            run.oblige("corpus standalone case agrees with the model: %s" % (c.get("comment", "")[:120]), not v["bad"],
-                       json.dumps(v["bad"][:2], default=str)[:380] if v["bad"] else "")
+            # a stand-alone case that is a LISTED known finding (KNOWN_FINDINGS.txt, matched by its case JSON exactly as
+            # vlib.finish does) is not an open obligation: the obligation is "agrees with the model, or reproduces as recorded"
+            _key = json.dumps(c["_orig"], sort_keys=True, default=str)
+            _listed = any(("case=" + _key) in k for k in vlib.known_findings("C05"))
+            run.oblige("corpus standalone case agrees with the model%s: %s" % (
+                " or reproduces a listed known finding" if _listed else "", c.get("comment", "")[:120]),
+                (not v["bad"]) or _listed, json.dumps(v["bad"][:2], default=str)[:380] if v["bad"] else "")
+            if _listed:
+                run.cov["known_finding_F1_reproduces"] = bool(v["bad"])
             if v["bad"]:
                 b0 = v["bad"][0]
                 run.violation("counterexample", "correspondence (standalone corpus case): mixed_rank_graph triplet vs prescribed heuristic value",
